@@ -18,6 +18,12 @@ import (
 // This is a zero-allocation alternative to Find() - it returns indices
 // directly instead of creating a Match object.
 func (e *Engine) FindIndices(haystack []byte) (start, end int, found bool) {
+	// Leftmost-longest mode: the specialised strategies (literal prefilters,
+	// reverse searchers, fast paths) are built around leftmost-first
+	// semantics; only the NFA engines implement the longest-match rule.
+	if e.longest {
+		return e.findIndicesNFA(haystack)
+	}
 	switch e.strategy {
 	case UseNFA:
 		return e.findIndicesNFA(haystack)
@@ -62,6 +68,10 @@ func (e *Engine) FindIndicesAt(haystack []byte, at int) (start, end int, found b
 	// Early impossibility check: anchored pattern can only match at position 0
 	if at > 0 && e.nfa.IsAlwaysAnchored() {
 		return -1, -1, false
+	}
+
+	if e.longest {
+		return e.findIndicesNFAAt(haystack, at) // see FindIndices
 	}
 
 	switch e.strategy {
@@ -1120,6 +1130,10 @@ func (e *Engine) findIndicesAtWithState(haystack []byte, at int, state *SearchSt
 	// Early impossibility check: anchored pattern can only match at position 0
 	if at > 0 && e.nfa.IsAlwaysAnchored() {
 		return -1, -1, false
+	}
+
+	if e.longest {
+		return e.findIndicesNFAAtWithState(haystack, at, state) // see FindIndices
 	}
 
 	switch e.strategy {
